@@ -5,7 +5,7 @@ from .. import core, gen, impl_thr, scen
 from . import c01
 
 ID = "C11"
-BUDGET = {"quick": 400, "thorough": 40000}
+BUDGET = {"quick": 1600, "thorough": 200000}
 RULE = ("scenario = random history of 5-40 operations on a scheduler with or without timezone: the six scheduling calls with valid "
         "and invalid arguments (wrong awareness, stop <= start, duplicate times, wrong timing type, list for cyclic), delete_job on "
         "registered / already deleted / retired jobs, delete_jobs and get_jobs with tag queries, jobs, exec_jobs (forced or not) and "
